@@ -481,6 +481,13 @@ func checkCase(c Case) error {
 					hx.Excluded("appendlist_of_empty_list")
 					continue
 				}
+				if (op.Pick+op.Data)%6 == 0 {
+					// a list that carries a signature header (the structure has the field; the size equation counts it)
+					l.SignatureHeader = []byte{0xc0, 0xff, 0xee}[:1+op.Pick%3]
+					l.HeaderSize = uint32(len(l.SignatureHeader))
+					l.ListSize += l.HeaderSize
+					hx.Class("appendlist_with_signature_header")
+				}
 				built = append(built, l)
 			}
 			if len(built) == 0 {
@@ -606,8 +613,8 @@ func checkCase(c Case) error {
 		case "roundtrip":
 			all := true
 			for _, l := range before.lists {
-				if !esl.Handled(l.Type) {
-					all = false
+				if !esl.Handled(l.Type) || len(l.Header) != 0 {
+					all = false // (the library's decoder refuses a header for the types it handles)
 				}
 			}
 			if !all {
